@@ -726,9 +726,10 @@ pub fn replay_chunk(prop: &str, r: &Value) -> Option<(String, String)> {
     let tier = r["tier"].as_str().unwrap_or("quick");
     let dev = r["profile"].as_str() == Some("dev");
     let res = run_chunk(prop, batch, first, upto - first + 1, tier, dev);
+    let pre = if dev { "dev:" } else { "" };
     if let Some((i, how)) = res.died {
-        return Some((format!("process_died:history:{batch}:{first}..={upto}"), format!("case {i}: child {how}")));
+        return Some((format!("{pre}process_died:history:{batch}:{first}..={upto}"), format!("case {i}: child {how}")));
     }
     let last = res.cases.last()?;
-    last.violation.as_ref().map(|(k, d, _)| (format!("{k}:history:{batch}:{first}..={upto}"), d.clone()))
+    last.violation.as_ref().map(|(k, d, _)| (format!("{pre}{k}:history:{batch}:{first}..={upto}"), d.clone()))
 }
